@@ -410,13 +410,25 @@ impl<'ast, 'decls> ResolveIterator<'ast, 'decls>
                 let new_position = {
                     if addr.address >= bank.addr_start
                     {
-                        &addr.address.checked_sub(
+                        let offset_in_units = addr.address.checked_sub(
                                 report,
                                 ast_addr.header_span,
                                 &bank.addr_start)?
                             .maybe_into::<usize>()
-                            .unwrap_or(0)
-                            * bank.addr_unit
+                            .unwrap_or(0);
+
+                        match offset_in_units.checked_mul(bank.addr_unit)
+                        {
+                            Some(position) => position,
+                            None =>
+                            {
+                                report.error_span(
+                                    "value is out of supported range",
+                                    ast_addr.header_span);
+
+                                return Err(());
+                            }
+                        }
                     }
                     else
                     {
